@@ -73,6 +73,10 @@ NULLABLE_BITS = ['""', '"a"?', '"b"*', '("a" | "")', '<e>', '<e>?', '("a"?)*', '
 
 def gen_spec(rng):
     """grammars biased towards empty-deriving symbols, nested repetitions, left/right/mutual recursion"""
+    if rng.random() < 0.15:
+        # empty-matching regexes under repetitions (a regex terminal never matches the empty string for the parser)
+        return rng.choice(['<start> ::= <ws>+ "b"\n<ws> ::= r"[ab]*"\n', '<start> ::= r"a*"+ "b"\n', '<start> ::= (r"a?" "c"?)* "b"\n',
+                           '<start> ::= <x>* "c"\n<x> ::= r"b*" | "a"\n'])
     if rng.random() < 0.5:
         return gen_grammar.gen_spec(rng, kinds=rng.choice([("str",), ("str", "regex")]), depth=rng.randint(1, 3), n_nt=rng.randint(1, 4))
     lines = []
